@@ -21,6 +21,10 @@ const nullGroupKeyMarker = "\x00NULL"
 // 分隔符导致的键碰撞（曾用 "|"：含 "|" 的值会被还原阶段截断、多字段还会错位）。
 const groupKeySep = "\x1f"
 
+// groupKeyEscaper escapes the separator, the escape character and the NUL that
+// starts nullGroupKeyMarker inside a value's text.
+var groupKeyEscaper = strings.NewReplacer(`\`, `\\`, groupKeySep, `\`+"s", "\x00", `\`+"0")
+
 // Aggregator aggregator interface
 type Aggregator interface {
 	Add(data any) error
@@ -218,10 +222,12 @@ func (ga *GroupAggregator) Add(data any) error {
 			continue
 		}
 
+		// escape the separator, so values containing it (or spelling the NULL
+		// marker) can never make two different tuples share one group key
 		if str, ok := fieldVal.(string); ok {
-			key += str + groupKeySep
+			key += groupKeyEscaper.Replace(str) + groupKeySep
 		} else {
-			key += fmt.Sprintf("%v", fieldVal) + groupKeySep
+			key += groupKeyEscaper.Replace(fmt.Sprintf("%v", fieldVal)) + groupKeySep
 		}
 		keyVals = append(keyVals, fieldVal)
 	}
